@@ -59,11 +59,47 @@ INFLECTIONS = ['lowercase', 'UPPERCASE', 'camelCase', 'snake_case', 'PascalCase'
 PLACEMENTS = ['all', 'first', 'last']
 
 # cells the derive rejects with its own diagnostic on the pinned tree (not valid inputs; checked when the grid was generated)
+HERE = os.path.dirname(os.path.abspath(__file__))
+REJECTED_FILE = os.path.join(HERE, '..', 'replay', 'probe', 'rejected.json')
+try:
+    import json as _json
+    REJECTED = _json.load(open(REJECTED_FILE))
+except OSError:
+    REJECTED = {}
+
+
 def rejected(cid):
-    parts = cid.split('.')
-    if 'tuple' in parts and any(x.startswith('optional') for x in parts):
-        return '`optional` cannot with tuple struct fields'
-    return None
+    # committed list (replay/probe/rejected.json: cell -> the derive's diagnostic), written once by `--learn` on the pinned tree and
+    # reviewed by hand: only diagnostics of the derive itself are accepted there, never a rustc error in the expansion
+    return REJECTED.get(cid)
+
+
+# pairs of field attributes (each key with the text it contributes)
+PAIR_KEYS = [
+    ('type', 'ts', 'type = "string"'), ('as', 'ts', None), ('inline', 'ts', 'inline'), ('skip', 'ts', 'skip'),
+    ('optional', 'ts', 'optional'), ('nullable', 'ts', 'optional = nullable'), ('rename', 'ts', 'rename = "r n"'), ('flatten', 'ts', 'flatten'),
+    ('docs', 'doc', '/// documented'), ('serde_rename', 'serde', 'rename = "wire"'), ('serde_skip', 'serde', 'skip'),
+    ('serde_default', 'serde', 'default'), ('serde_flatten', 'serde', 'flatten'), ('serde_unknown', 'serde', 'alias = "al"'),
+]
+
+
+def pair_field(a, b):
+    keys = {a, b}
+    opt = bool(keys & {'optional', 'nullable'})
+    structy = bool(keys & {'inline', 'flatten', 'serde_flatten'})
+    if 'as' in keys:
+        ty, as_txt = 'Opaque', ('as = "Option<String>"' if opt else ('as = "Inner"' if structy else 'as = "String"'))
+    else:
+        inner = 'Inner' if structy else 'i32'
+        ty = f'Option<{inner}>' if opt else (inner if structy else ('Opaque' if keys & {'type', 'skip', 'serde_skip'} else 'i32'))
+        as_txt = None
+    ts, serde, doc = [], [], []
+    for k, kind, txt in PAIR_KEYS:
+        if k in keys:
+            t = as_txt if k == 'as' else txt
+            (ts if kind == 'ts' else serde if kind == 'serde' else doc).append(t)
+    lines = doc + ([f'#[ts({", ".join(ts)})]'] if ts else []) + ([f'#[serde({", ".join(serde)})]'] if serde else [])
+    return '\n    '.join(lines), ty
 
 
 def fields(table, cell, n, placement, named):
@@ -101,6 +137,18 @@ def items():
                         cid = f'enum.{rname}.{kind}.{cell}.{n}.{pl}'
                         body = ('{\n    ' + ',\n    '.join(fs) + ',\n    }') if named else ('(\n    ' + ',\n    '.join(fs) + ',\n    )')
                         out.append((cid, f'#[derive(TS)] {rattr} pub enum E {{\n    U,\n    V {body},\n}}'))
+    names = [k for k, _, _ in PAIR_KEYS]
+    for a, b in itertools.combinations(names, 2):
+        attr, ty = pair_field(a, b)
+        for pl in ('all', 'first'):
+            f0 = attr + '\n    f_0: ' + ty
+            f1 = (attr + '\n    f_1: ' + ty) if pl == 'all' else 'f_1: i32'
+            out.append((f'pair.struct.named.{a}+{b}.{pl}', '#[derive(TS)] pub struct S {\n    ' + f0 + ',\n    ' + f1 + ',\n}'))
+            out.append((f'pair.enum.named.{a}+{b}.{pl}', '#[derive(TS)] pub enum E {\n    U,\n    V {\n    ' + f0 + ',\n    ' + f1 + ',\n    },\n}'))
+            if not {a, b} & {'rename', 'flatten', 'serde_rename', 'serde_flatten', 'optional', 'nullable', 'serde_default'}:
+                t0 = attr + '\n    ' + ty
+                t1 = t0 if pl == 'all' else 'i32'
+                out.append((f'pair.struct.tuple.{a}+{b}.{pl}', '#[derive(TS)] pub struct S(\n    ' + t0 + ',\n    ' + t1 + ',\n);'))
     for rname, rattr in REPRS:
         for vcell, vattr in VARIANT:
             for shape, body in (('unit', ''), ('newtype', '(Inner)'), ('tuple', '(i32, String)'), ('named', '{ a: i32, b_c: String }')):
@@ -108,6 +156,21 @@ def items():
                     continue
                 cid = f'variant.{rname}.{shape}.{vcell}'
                 out.append((cid, f'#[derive(TS)] {rattr} pub enum E {{\n    First,\n    {vattr}\n    V{body},\n    Last {{ x: i32 }},\n}}'))
+    # generic parameter lists: lifetimes first, then type and const parameters in every order (Rust allows `<const N: usize, T>`),
+    # defaults trailing; each parameter is used by a field so that it reaches decl(), the impl header and WithoutGenerics
+    GEN = {'a': ("'a", "&'a str"), 'T': ('T', 'T'), 'U': ('U: Clone', 'Vec<U>'), 'N': ('const N: usize', '[i32; N]'), 'M': ('const M: usize', '[u8; M]'),
+           'D': ('D = i32', 'Option<D>'), 'K': ('const K: usize = 2', '[i32; K]')}
+    orders = ['T', 'N', 'TN', 'NT', 'TNU', 'NTM', 'TUN', 'NMT', 'aT', 'aN', 'aTN', 'aNT', 'aNTM', 'TD', 'ND', 'NTD', 'TNK', 'NTK', 'NTDK', 'aNTUDK']
+    for o in orders:
+        params = ', '.join(GEN[c][0] for c in o)
+        flds = ', '.join(f'f_{i}: {GEN[c][1]}' for i, c in enumerate(o))
+        tys = ', '.join(GEN[c][1] for c in o)
+        out.append((f'generics.struct.named.{o}', f'#[derive(TS)] pub struct S<{params}> {{ {flds} }}'))
+        out.append((f'generics.struct.tuple.{o}', f'#[derive(TS)] pub struct S<{params}>({tys});'))
+        out.append((f'generics.enum.{o}', f'#[derive(TS)] pub enum E<{params}> {{ A {{ {flds} }}, B({tys}), C }}'))
+        out.append((f'generics.enum.tagged.{o}', f'#[derive(TS)] #[ts(tag = "t")] pub enum E<{params}> {{ A {{ {flds} }}, C }}'))
+        if 'T' in o:
+            out.append((f'generics.struct.inline_flatten.{o}', f'#[derive(TS)] pub struct S<{params}> {{ {flds}, #[ts(inline)] g: Gen<T>, #[ts(flatten)] h: Gen<T> }}'))
     for infl in INFLECTIONS:
         out.append((f'container.struct.rename_all.{infl}', f'#[derive(TS)] #[ts(rename_all = "{infl}")] pub struct S {{ some_field: i32, r#type: i32, other: Inner }}'))
         out.append((f'container.enum.rename_all.{infl}', f'#[derive(TS)] #[ts(rename_all = "{infl}")] pub enum E {{ SomeVariant, Other {{ some_field: i32 }}, T(i32) }}'))
@@ -164,12 +227,48 @@ def render():
     return '\n'.join(lines) + '\n', k, nrej
 
 
+def learn(pdir):
+    """Build the probe with NO cell left out and record every cell the derive itself rejects (a diagnostic without an error code,
+    pointing into the cell); rustc errors in an expansion (error[E....]) are printed and never recorded."""
+    import re, subprocess, json
+    global REJECTED
+    REJECTED = {}
+    text, k, _ = render()
+    open(os.path.join(pdir, 'src', 'shapes.rs'), 'w', encoding='utf-8').write(text)
+    env = dict(os.environ, CARGO_NET_OFFLINE='true', CARGO_TARGET_DIR=os.environ.get('PROBE_TARGET', os.path.join(HERE, '..', 'work', 'probe-target')))
+    p = subprocess.run(['cargo', 'build', '--offline', '--quiet', '--message-format=short', '--manifest-path', os.path.join(pdir, 'Cargo.toml')],
+                       env=env, capture_output=True, text=True)
+    src = text.split('\n')
+    rej, hard = {}, []
+    for ln in p.stderr.splitlines():
+        m = re.match(r'src/shapes\.rs:(\d+):\d+: (error(\[E\d+\])?: .*)', ln)
+        if not m:
+            continue
+        line = int(m.group(1))
+        cell = next((src[i].split('cell:')[1].strip() for i in range(line - 1, -1, -1) if src[i].startswith('// cell:')), None)
+        if m.group(3):
+            hard.append((cell, m.group(2)))
+        else:
+            rej.setdefault(cell, m.group(2)[len('error: '):])
+    for c, msg in hard:
+        if c not in rej:
+            print('RUSTC ERROR IN AN EXPANSION (not recorded):', c, msg)
+    json.dump(dict(sorted(rej.items())), open(REJECTED_FILE, 'w'), indent=0, ensure_ascii=False)
+    print(f'{len(rej)} of {k} cells are rejected by the derive; reasons:')
+    import collections
+    for msg, n in collections.Counter(rej.values()).most_common():
+        print(f'  {n:4d}  {msg}')
+    REJECTED = rej
+
+
 if __name__ == '__main__':
+    if '--learn' in sys.argv:
+        learn(os.path.join(HERE, '..', 'replay', 'probe'))
     text, k, nrej = render()
     if '--list' in sys.argv:
         for cid, _ in items():
             print(cid, '(rejected by the derive: ' + rejected(cid) + ')' if rejected(cid) else '')
         sys.exit(0)
-    p = os.path.join(os.path.dirname(os.path.abspath(__file__)), '..', 'replay', 'probe', 'src', 'shapes.rs')
+    p = os.path.join(HERE, '..', 'replay', 'probe', 'src', 'shapes.rs')
     open(p, 'w', encoding='utf-8').write(text)
     print(f'{k} cells written to {os.path.normpath(p)} ({nrej} cells rejected by the derive are left out)')
